@@ -94,8 +94,9 @@ class AsyncRequest {
    * no underlying data.
    **/
   OpResult getUpdate() {
+    RequestState state = kReady;
     DISPENSO_VERIF_POINT("GetClaim", this);
-    if (state_.load(std::memory_order_acquire) == kReady) {
+    if (state_.compare_exchange_strong(state, kUpdating, std::memory_order_acq_rel)) {
       DISPENSO_VERIF_POINT("GetMove", this);
       auto obj = std::move(obj_);
       DISPENSO_VERIF_POINT("GetSt", this);
